@@ -7,6 +7,7 @@ import (
 	"math"
 	"math/rand/v2"
 	"net"
+	"sort"
 	"strings"
 	"sync"
 	"time"
@@ -540,6 +541,8 @@ func (s *expSession) runOps1(i int, op plan.Op) {
 		s.opData(i, op)
 	case "dataunk":
 		s.opDataUnknown(i, op)
+	case "datasetid":
+		s.opDataSetID(i, op)
 	case "undef":
 		s.set.ResetSet()
 		s.send(callRec{Op: i, Kind: "undef", Slot: -1, Expect: "error", Why: "undefined set type"})
@@ -763,6 +766,64 @@ func (s *expSession) opDataUnknown(i int, op plan.Op) {
 	s.set.PrepareSet(entities.Data, id)
 	s.set.AddRecord(elems, id)
 	s.send(callRec{Op: i, Kind: "dataunk", Slot: slot, Expect: "error", Why: "no template with that id was sent"})
+}
+
+// opDataSetID: a Set object carries two template ids - the one PrepareSet wrote into the set header
+// (that is the id on the wire) and the one each record was added with (that is the one an exporting
+// process can look at). An application that gets them crossed hands in a data set whose id on the wire
+// was never announced (A=0, also with no record at all: A=2), or one whose records have the field count
+// of another template than the one the wire names (A=1). Either is a data set the statement says is never
+// transmitted.
+func (s *expSession) opDataSetID(i int, op plan.Op) {
+	var slots []int
+	for slot, t := range s.tmpls {
+		if t != nil && t.Sent && !t.Ambiguous && len(t.Specs) <= 64 {
+			slots = append(slots, slot)
+		}
+	}
+	sort.Ints(slots)
+	if len(slots) == 0 {
+		return
+	}
+	rec := s.tmpls[slots[int(op.B)%len(slots)]]
+	unknown := uint16(300 + op.B%3)
+	hdr := unknown
+	why := "the set header carries an id no template was sent for (its records were added under a sent template's id)"
+	switch op.A {
+	case 1:
+		var other *tmplInfo
+		for _, slot := range slots {
+			if t := s.tmpls[slot]; len(t.Specs) != len(rec.Specs) {
+				other = t
+				break
+			}
+		}
+		if other == nil {
+			return
+		}
+		hdr = other.ID
+		why = "the set header carries the id of a template with another field count than the template its records were added under"
+	case 2:
+		why = "the set header carries an id no template was sent for (the set holds no record)"
+	}
+	r := rand.New(rand.NewPCG(uint64(op.C), 0xda7c))
+	s.set.ResetSet()
+	s.set.PrepareSet(entities.Data, hdr)
+	if op.A != 2 {
+		for n := 1 + int(op.C%3); n > 0; n-- {
+			elems := make([]entities.InfoElementWithValue, len(rec.Specs))
+			for k, sp := range rec.Specs {
+				e, err := registry.GetInfoElement(sp.Name, sp.Ent)
+				if err != nil {
+					panic(err)
+				}
+				elems[k] = mkElement(sp, e, genWire(r, sp, 8))
+			}
+			s.set.AddRecord(elems, rec.ID)
+		}
+	}
+	s.env.Count("fault.invalid_attempt.set_header_id_crossed", 1)
+	s.send(callRec{Op: i, Kind: "datasetid", Slot: -1, Expect: "error", Why: why})
 }
 
 func (s *expSession) opData(i int, op plan.Op) {
@@ -1658,6 +1719,8 @@ func clauseWord(why string) string {
 	switch {
 	case why == "":
 		return ""
+	case bytes.Contains([]byte(why), []byte("set header")):
+		return "set-id"
 	case bytes.Contains([]byte(why), []byte("IPv6")):
 		return "addr-family"
 	case bytes.Contains([]byte(why), []byte("octet")):
